@@ -37,6 +37,7 @@ EXPLANATION += (' R-C10-8: the per-node maximum load (paired by position with th
 EXPLANATION += (' R-C10-9 (shared with R-C07-8 / R-C05-12): the per-point look-up tables of the binned law are never replaced or re-ordered after their construction; their rows are paired with the points of a load step by position.')
 EXPLANATION += (' R-C10-10: the rule R-C04-1 evaluated for this property (sample insensitivity rests on the junction of the two HCM passes: flush decision on the look-ahead sequence, trailing plateau taken at its first sample, second pass flushes); its open known finding is listed for C10 too.')
 EXPLANATION += (' R-C10-11: with per-point look-up tables of the binned law the class of every point is searched in that point\'s own table; a search with the first point\'s load whose result selects the rows of all points is reported (open known finding: four look-up methods).')
+EXPLANATION += (" R-C10-12: no method of FKMNonlinearDetector re-orders pandas data by labels or values (sort_index, sort_values, reindex, sample); the rows of a load step are paired by position with per-point tables that keep the order of appearance (expected count zero, built-in example).")
 ASSUMPTIONS = [
     "pandas groupby(level).reduction() reduces within each group only; element-wise numpy/pandas operations keep rows apart",
 ]
@@ -274,7 +275,44 @@ def _loop_bound_masked(fi, stmt, call):
     return bool(loops)
 
 
+REORDERERS = ("sort_index", "sort_values", "sortlevel", "reindex", "reindex_like", "sample", "swaplevel_sorted")
+
+
+def label_reorderings(cls_node):
+    """calls that re-order the rows of a pandas object by its labels / values: [(call, text)]"""
+    out = []
+    for c in ast.walk(cls_node):
+        if isinstance(c, ast.Call) and isinstance(c.func, ast.Attribute) and c.func.attr in REORDERERS:
+            out.append((c, norm_text(c)[:70]))
+    return out
+
+
+def _r12(ctx):
+    """R-C10-12: the FKM nonlinear detector takes the load sequence in the caller's row order.  The per-point look-up tables of the
+    binned notch law list the points in their order of appearance (R-C10-8, R-C10-9) and are paired with the points of a load step
+    by POSITION; the detector's representative point is the first row of a load step.  Re-ordering the incoming sequence by its
+    labels inside the detector (sort_index for a 'lexsorted, faster .loc') pairs the loads of one point with the table of another
+    whenever the node ids do not ascend - the lifetime of a point then depends on the other points of the batch."""
+    prog = ctx.prog
+    ctx.rule("R-C10-12", floor=1, what="the FKM nonlinear detector does not re-order the load sequence by its labels")
+    ex = ast.parse("class D:\n    def process(self, samples):\n        if not samples.index.is_monotonic_increasing:\n            samples = samples.sort_index()\n        return samples.groupby('load_step', sort=False).first()\n").body[0]
+    if len(label_reorderings(ex)) != 1:
+        raise AnalysisError("R-C10-12 built-in example not matched")
+    ci = prog.cls("pylife.stress.rainflow.fkm_nonlinear:FKMNonlinearDetector")
+    hits = []
+    for name, defs in sorted(ci.methods.items()):
+        fi = defs[-1]
+        for c, text in label_reorderings(fi.node):
+            hits.append(c)
+            ctx.violated(fi, c, "FKMNonlinearDetector.%s re-orders pandas data by labels (%s): the rows of a load step are paired by position "
+                         "with the per-point look-up tables, which keep the order in which the points appear in the load sequence"
+                         % (name, text), text="label re-ordering in " + name)
+    if not hits:
+        ctx.holds(ci.key, None, "%d methods of the detector: no sort_index / sort_values / reindex" % len(ci.methods))
+
+
 def run(ctx):
+    ctx.attempt(_r12)
     ctx.attempt(_r1)
     ctx.attempt(_r2)
     ctx.attempt(_r3)
